@@ -483,8 +483,8 @@ formats_single.native = lambda log: all(f in ("%s", "\t%s") for f in [log.format
 BODY = "(cf.cells[{k}][0] == 1 or cf.cells[{k}][0] == 2)"
 LOG_INV = ["cf.nnl == 0", "len(cf.cells) >= 1 and cf.cells[0][0] == 0",
            "forall(lambda k: implies(1 <= k and k < len(cf.cells), %s))" % BODY.format(k="k"),
-           "forall(lambda t: implies(0 <= t and t < ti, forall(lambda j: implies(0 <= j and j < nfmt(self, t), "
-           "cell_ok(cf.cells, 1 + ps(self, t) + j, self, t, j)))))"]
+           "forall(lambda t, j: implies(0 <= t and t < ti and 0 <= j and j < nfmt(self, t), "
+           "cell_ok(cf.cells, 1 + ps(self, t) + j, self, t, j)))"]
 OLDN = "old(len(self.file.cells))"
 contract(FL, "Log.log", "C22", params=P, modifies=LOG_MOD, externals=EXT,
          assumes=PREP_FORMATS + SINGLE_FMT,
@@ -498,9 +498,9 @@ contract(FL, "Log.log", "C22", params=P, modifies=LOG_MOD, externals=EXT,
                   "implies(not self.file.closed, len(self.file.cells) == %s + 2 + ps(self, nloggees(self)))" % OLDN,
                   "implies(not self.file.closed, self.file.cells[%s][0] == 0 and "
                   "self.file.cells[len(self.file.cells) - 1][0] == 3)" % OLDN,
-                  "implies(not self.file.closed, forall(lambda t: implies(0 <= t and t < nloggees(self), "
-                  "forall(lambda j: implies(0 <= j and j < nfmt(self, t), "
-                  "cell_ok(self.file.cells, %s + 1 + ps(self, t) + j, self, t, j))))))" % OLDN,
+                  "implies(not self.file.closed, forall(lambda t, j: implies(0 <= t and t < nloggees(self) and "
+                  "0 <= j and j < nfmt(self, t), cell_ok(self.file.cells, %s + 1 + ps(self, t) + j, self, t, j))))"
+                  % OLDN,
                   "forall(lambda k: implies(0 <= k and k < %s, self.file.cells[k] == oldlist(self.file.cells)[k]))"
                   % OLDN],
          local_ensures=["ct_len() == 1 and ct_is(0, 'file.write', self.file)"])
